@@ -283,28 +283,32 @@ inductive Mode
 /-- does the chunk at `start` begin on a new line? (`read_values`: the first chunk does, others when the byte before is LF) -/
 def chunkStartsNl (body : List Nat) (start : Nat) : Bool := start = 0 || body.getD (start - 1) 0 == 10
 
+def Res.isPanic : Res Enc → Bool | .panic => true | _ => false
+def Res.isErr : Res Enc → Bool | .err => true | _ => false
+def Res.okOf : Res Enc → Option Enc | .ok e => some e | _ => none
+
+/-- what one worker does with its chunk `(start, len)`: `read_single_stream_of_values` on `body[start..]` with the hand-over
+position `len − 1`; only the first chunk records values in front of its first timestamp (at the implicit time 0) -/
+def chunkRes (c : Codec) (d : Decls) (rm : RealMap) (body : List Nat) (ch : Nat × Nat) : Res Enc :=
+  if ch.1 > body.length then Res.panic
+  else readStream c d rm (body.drop ch.1) (some (ch.2 - 1)) (decide (ch.1 = 0))
+
 /-- `read_body` / `read_values`: the final encoder, or err / panic -/
 def readValues (c : Codec) (d : Decls) (rm : RealMap) (body : List Nat) : Mode → Res Enc
   | .single => readStream c d rm body (some (body.length - 1)) true
   | .singleChecked => readStream c d rm body (some (body.length - 1)) true
   | .reader fileLen => readStream c d rm body (some fileLen) true
   | .multi threads minChunk =>
-    match some (determineChunks body.length threads minChunk) with
-    | none => .panic
-    | some chunks =>
-      let rs := chunks.map fun (start, len) =>
-        if start > body.length then Res.panic
-        else readStream c d rm (body.drop start) (some (len - 1)) (start = 0)
-      if rs.any (fun r => match r with | .panic => true | _ => false) then .panic
-      else if rs.any (fun r => match r with | .err => true | _ => false) then .err
-      else
-        let encs := rs.filterMap (fun r => match r with | .ok e => some e | _ => none)
-        match encs with
-        | [] => .panic
-        | e0 :: rest =>
-          match rest.foldl (fun (acc : Option Enc) e => acc.bind (fun a => append c a e)) (some e0) with
-          | none => .panic
-          | some e => .ok e
+    let rs := (determineChunks body.length threads minChunk).map (chunkRes c d rm body)
+    if rs.any Res.isPanic then .panic
+    else if rs.any Res.isErr then .err
+    else
+      match rs.filterMap Res.okOf with
+      | [] => .panic
+      | e0 :: rest =>
+        match appendAll c e0 rest with
+        | none => .panic
+        | some e => .ok e
 
 /-! ### token-level specification of a body -/
 
